@@ -349,6 +349,15 @@ def check_nonschema(lang, mod, name, o, label, ops, opy, spec, params, rep, R, w
                   '%s: SSEQ is not guarded by membership of both inputs in the root-category list, or does not return the right input' % name)
 
 
+def is_registry(t, reg=None):
+    """does the term denote the module's `combinators` registry (by name, or as the list display it is bound to)?"""
+    if t == N('combinators'):
+        return True
+    if t[0] in ('list', 'tuple') and t[1] and all(x[0] == 'name' for x in t[1]):
+        return reg is None or [x[1] for x in t[1]] == list(reg)
+    return False
+
+
 def check_dispatch(lang, mod, rep, R):
     """registry complete; apply_binary_rules folds over it without filter."""
     reg = registry(mod)
@@ -376,7 +385,7 @@ def check_dispatch(lang, mod, rep, R):
             continue
         it, filt = r[2][0]
         elt = r[1]
-        if it != N('combinators'):
+        if not is_registry(it, reg):
             bad.append('iterates %s' % show(it)[:80])
             continue
         is_call = elt[0] == 'call' and elt[1][0] == 'elem' and elt[1][1] == it
